@@ -204,6 +204,13 @@ func c05RunHistory(r *Run, d *c05Drv, hist []string, rec bool, label string) map
 			}
 			r.Stat("op:" + op + ":" + cls)
 		}
+		if strings.HasPrefix(res, "PANIC") {
+			// a recovered panic can leave the File's mutexes locked: the history ends here
+			if rec {
+				r.Stat("history-aborted-after-panic")
+			}
+			break
+		}
 		if op != "h.save" {
 			continue
 		}
